@@ -26,6 +26,7 @@ import GluonModel.Proofs.SpanArith
 import GluonModel.Tokenizer
 import GluonModel.Proofs.TokenizerUtf8
 import GluonModel.Proofs.TokenizerScan
+import GluonModel.Proofs.TokenizerAll
 
 namespace GluonModel.Props.C09
 open GluonModel.LayoutAlgo GluonModel.SpanArith
@@ -308,6 +309,39 @@ theorem escape_code_total (inp : Input) (start l : Tokenizer.Loc) (hv : VAt inp 
 theorem char_literal_total (inp : Input) (start l : Tokenizer.Loc) (hv : VAt inp l.abs) :
     ∃ o, charLiteral inp start l = .ok o ∧ Lands inp l o.loc :=
   charLiteral_total start hv
+
+/-- `Tokenizer::next` for every text and every scalar boundary, all arms except the numeric one
+(whose totality is the hypothesis `NumericTotal`): it returns — no panic, no hang — on a scalar
+boundary, and either consumed at least one byte or yielded `EOF`.  Covers identifiers/keywords,
+operators (incl. `#ident+`), punctuation, string, raw string (with the `"#…#` arithmetic of
+`content_end -= delimiters + 1`), char literals, line/block/doc comments, shebang, `#[`,
+whitespace, and the catch-all arm for unknown (also multi-byte) characters. -/
+theorem next_total_partial (inp : Input) (hnum : NumericTotal inp) (l : Tokenizer.Loc)
+    (errs : List SErr) (hv : VAt inp l.abs) : NextOK inp l (next inp l errs) :=
+  next_total ⟨fun _ _ _ hv _ => rawStringLiteral_total hv, hnum⟩ _ l errs rfl hv
+
+/-- `tokenize_total`, conditional on the one scanner not yet proved: if `numeric_literal` is total
+(`NumericTotal`: it returns on a scalar boundary whenever it is entered the way `next` enters it),
+then for EVERY `&str` the calls of `next` reach `EOF` within `len + 1` calls — never `panic`,
+never `hang`, never `fuel`. -/
+theorem tokenize_total_partial (cs : List Nat) (h : ∀ c ∈ cs, isScalar c)
+    (hnum : NumericTotal (encodeAll cs).toArray) :
+    ∃ e, (tokenize (encodeAll cs).toArray).fin = .eof e :=
+  tokenize_total_of (vat_zero_of_scalars cs h) hnum
+
+/-- `tokenize_total` unconditionally on the sub-language of texts WITHOUT DECIMAL DIGITS (the
+only excluded arm of `next` is `ch if is_digit(ch) || (ch == b'-' && lookahead is_digit)`,
+token.rs:861): any scalars, any length, every other construct and every error path. -/
+theorem tokenize_total_digit_free (cs : List Nat) (h : ∀ c ∈ cs, isScalar c)
+    (hd : ∀ c ∈ cs, isDigit c = false) :
+    ∃ e, (tokenize (encodeAll cs).toArray).fin = .eof e :=
+  tokenize_total_of (vat_zero_of_scalars cs h) (numericTotal_of_no_digit cs hd)
+
+/-- a digit-free text with a raw string, a char literal followed by a non-ASCII scalar and a
+stray scalar: `r#"a"# 'aé λ` -/
+example : (∀ c ∈ [114, 35, 34, 97, 34, 35, 32, 39, 97, 233, 32, 955], isScalar c) ∧
+    (∀ c ∈ [114, 35, 34, 97, 34, 35, 32, 39, 97, 233, 32, 955], isDigit c = false) := by
+  constructor <;> (intro c hc; simp at hc; rcases hc with h | h | h | h | h | h | h | h | h | h | h | h <;> subst h <;> simp [isScalar, isDigit])
 
 /-- `'aé` (D22): position 1 (after the quote) is a scalar boundary, so `char_literal_total`
 applies; the text is the encoding of the scalars `' a é`. -/
